@@ -85,18 +85,21 @@ func (t *typ) String() string {
 }
 
 type tr struct {
-	fset    *token.FileSet
-	file    *ast.File
-	prefix  string
-	imports map[string]string          // local package name -> import path
-	structs map[string]*ast.StructType // declared struct types
-	named   map[string]ast.Expr        // other declared named types (type Functions []*Function)
-	funcs   map[string]*ast.FuncDecl   // "F" or "Recv.M"
-	used    map[string]map[string]bool // struct -> fields read
-	usedAny []string                   // structs mentioned, in order of first mention
-	done    map[string]string          // function key -> Definition text
-	order   []string                   // keys in emission order
-	busy    map[string]bool
+	updated   map[string]bool   // structs some field of which is assigned or that are built by a literal: setters are emitted
+	constMaps map[string]string // package-level map[string]string variables with a literal value: name -> Coq term
+	tmp       int               // counter of temporaries
+	fset      *token.FileSet
+	file      *ast.File
+	prefix    string
+	imports   map[string]string          // local package name -> import path
+	structs   map[string]*ast.StructType // declared struct types
+	named     map[string]ast.Expr        // other declared named types (type Functions []*Function)
+	funcs     map[string]*ast.FuncDecl   // "F" or "Recv.M"
+	used      map[string]map[string]bool // struct -> fields read
+	usedAny   []string                   // structs mentioned, in order of first mention
+	done      map[string]string          // function key -> Definition text
+	order     []string                   // keys in emission order
+	busy      map[string]bool
 
 	implicit map[string]map[string]string // function key -> implicit parameter name -> its Coq type
 	forced   map[string][]string          // function key -> ambient values that are parameters even when not read
@@ -376,7 +379,7 @@ func (t *tr) exprWant(e ast.Expr, want *typ) (string, *typ) {
 	if id, ok := e.(*ast.Ident); ok && id.Name == "nil" {
 		if _, shadow := t.env["nil"]; !shadow && want != nil {
 			switch want.kind {
-			case "error", "list", "map":
+			case "error", "list", "map", "struct": // (a nil *T next to an error: the zero T; it is never looked at)
 				return t.zero(want), want
 			}
 		}
@@ -441,6 +444,9 @@ func (t *tr) expr(e ast.Expr) (string, *typ) {
 			}
 			if t.globals[x.Name] {
 				return t.addImplicit("pkg_"+x.Name, "string"), tString
+			}
+			if c, ok := t.constMaps[x.Name]; ok { // a package-level map literal, never written in the subset
+				return c, tMap(tString)
 			}
 			die("unsupported identifier %s (not a parameter, local variable or literal constant of the file)", x.Name)
 		}
@@ -563,6 +569,28 @@ func (t *tr) expr(e ast.Expr) (string, *typ) {
 					die("map literal entry %s: type mismatch", t.text(el))
 				}
 				out = "(map_set " + out + " " + kc + " " + vc + ")"
+			}
+			return out, ty
+		}
+		if ty.kind == "struct" && !t.foreign[ty.name] { // T{F: e, ...}: the zero value with the named fields set
+			out := t.zero(ty)
+			t.updated[ty.name] = true
+			for _, el := range x.Elts {
+				kv, ok := el.(*ast.KeyValueExpr)
+				if !ok {
+					die("struct literal %s without field names", t.text(x))
+				}
+				fid, ok := kv.Key.(*ast.Ident)
+				if !ok {
+					die("unsupported struct literal %s", t.text(x))
+				}
+				fty := t.fieldType(ty.name, fid.Name)
+				c, cty := t.exprWant(kv.Value, fty)
+				if !cty.eq(fty) {
+					die("field %s of %s: type mismatch", fid.Name, t.text(x))
+				}
+				t.used[ty.name][fid.Name] = true
+				out = "(" + t.prefix + ty.name + "_with_" + fid.Name + " " + out + " " + c + ")"
 			}
 			return out, ty
 		}
@@ -978,6 +1006,17 @@ func (t *tr) format(x *ast.CallExpr) string {
 			n++
 			flush()
 			parts = append(parts, c)
+		case 'd':
+			if n >= len(x.Args) {
+				die("format %s has more verbs than arguments", lit.Value)
+			}
+			c, ty := t.expr(x.Args[n])
+			if ty.kind != "int" {
+				die("%%d argument %s has type %v", t.text(x.Args[n]), ty)
+			}
+			n++
+			flush()
+			parts = append(parts, "(strconv_Itoa "+c+")")
 		case 's', 'v':
 			if n >= len(x.Args) {
 				die("format %s has more verbs than arguments", lit.Value)
@@ -1358,6 +1397,9 @@ func (t *tr) assignedOuter(l []ast.Stmt) []string {
 						if ix, ok := x.(*ast.IndexExpr); ok { // m[k] = v
 							x = ix.X
 						}
+						if sx, ok := x.(*ast.SelectorExpr); ok { // f.X = v
+							x = sx.X
+						}
 						if id, ok := x.(*ast.Ident); ok && id.Name != "_" {
 							if _, outer := t.env[id.Name]; outer && inner[id.Name] {
 								die("the name %s is both re-declared and assigned in one block (not modelled)", id.Name)
@@ -1655,8 +1697,8 @@ func (t *tr) block(l []ast.Stmt, k func() string) string {
 		// for i := 0; i < len(xs); i++ { ... xs[i] ... }  ==  for _, e := range xs { ... e ... }
 		// when i is used only in xs[i] and neither i nor xs is assigned in the body
 		xsName, iName := indexLoop(s)
-		if xsName == "" {
-			die("unsupported for statement (only `for _, x := range xs` and `for i := 0; i < len(xs); i++`): %s", t.text(s.Cond))
+		if xsName == "" || !onlyIndexUses(s.Body, xsName, iName) {
+			return t.countedLoop(s, rest)
 		}
 		xty, ok := t.env[xsName]
 		if !ok || xty.kind != "list" {
@@ -1680,6 +1722,117 @@ func (t *tr) block(l []ast.Stmt, k func() string) string {
 	}
 	die("unsupported statement %s (%T)", strings.SplitN(t.text(l[0]), "\n", 2)[0], l[0])
 	return ""
+}
+
+// every use of i in the body is xs[i]
+func onlyIndexUses(body *ast.BlockStmt, xs, i string) bool {
+	ok := true
+	var walk func(n ast.Node) bool
+	walk = func(n ast.Node) bool {
+		switch v := n.(type) {
+		case *ast.IndexExpr:
+			if x, isId := v.X.(*ast.Ident); isId && x.Name == xs {
+				if ix, isId := v.Index.(*ast.Ident); isId && ix.Name == i {
+					return false // do not descend: this use is fine
+				}
+			}
+		case *ast.Ident:
+			if v.Name == i {
+				ok = false
+			}
+		}
+		return true
+	}
+	ast.Inspect(body, walk)
+	return ok
+}
+
+// for [x := a | x = a | nothing]; x < bound; x++ { body }: x runs through a, a+1, .., bound-1 when the body assigns
+// neither x nor anything the bound mentions: a fold over (zrange a bound); afterwards x = max a bound
+func (t *tr) countedLoop(s *ast.ForStmt, rest func() string) string {
+	bad := func() string {
+		die("unsupported for statement (only `for _, x := range xs` and `for [x := a]; x < bound; x++`): %s", t.text(s.Cond))
+		return ""
+	}
+	cond, ok := s.Cond.(*ast.BinaryExpr)
+	if !ok || cond.Op != token.LSS {
+		return bad()
+	}
+	xid, ok := cond.X.(*ast.Ident)
+	if !ok {
+		return bad()
+	}
+	post, ok := s.Post.(*ast.IncDecStmt)
+	if !ok || post.Tok != token.INC {
+		return bad()
+	}
+	if pid, ok := post.X.(*ast.Ident); !ok || pid.Name != xid.Name {
+		return bad()
+	}
+	outer := t.snapshot()
+	start := ""
+	declared := false
+	switch init := s.Init.(type) {
+	case nil:
+		if ty, ok := t.env[xid.Name]; !ok || ty.kind != "int" {
+			return bad()
+		}
+		start = t.v(xid.Name)
+	case *ast.AssignStmt:
+		if len(init.Lhs) != 1 || len(init.Rhs) != 1 {
+			return bad()
+		}
+		if id, ok := init.Lhs[0].(*ast.Ident); !ok || id.Name != xid.Name {
+			return bad()
+		}
+		c, ty := t.expr(init.Rhs[0])
+		if ty.kind != "int" {
+			return bad()
+		}
+		start = c
+		if init.Tok == token.DEFINE {
+			declared = true
+		} else if init.Tok != token.ASSIGN {
+			return bad()
+		}
+	default:
+		return bad()
+	}
+	bound, bty := t.expr(cond.Y)
+	if bty.kind != "int" {
+		return bad()
+	}
+	assigned := t.assignedOuter(s.Body.List)
+	for _, n := range assigned {
+		if n == xid.Name {
+			die("counted loop: the body assigns the counter %s", n)
+		}
+	}
+	ast.Inspect(cond.Y, func(n ast.Node) bool {
+		if id, ok := n.(*ast.Ident); ok {
+			for _, a := range assigned {
+				if a == id.Name {
+					die("counted loop: the body assigns %s, which the bound mentions", a)
+				}
+			}
+		}
+		return true
+	})
+	t.tmp++
+	lo := fmt.Sprintf("lo_%d", t.tmp)
+	hi := fmt.Sprintf("hi_%d", t.tmp)
+	pre := "let " + lo + " := " + start + " in\n  let " + hi + " := " + bound + " in\n  "
+	after := rest
+	if declared {
+		t.declare(xid.Name, tInt)
+		after = t.inScope(outer, rest)
+	} else {
+		xv := t.v(xid.Name)
+		inner := rest
+		after = func() string { return "let " + xv + " := (Z.max " + lo + " " + hi + ") in\n  " + inner() }
+		after = t.inScope(outer, after)
+	}
+	return pre + t.loop(s.Body.List, "(zrange "+lo+" "+hi+")", t.v(xid.Name), after)
 }
 
 // `for i := 0; i < len(xs); i++ {}` -> ("xs", "i")
@@ -1881,7 +2034,28 @@ func (t *tr) isExecExitError(e ast.Expr) bool {
 
 // an assignment statement as a `let ... in` prefix
 func (t *tr) assign(s *ast.AssignStmt) string {
+	post := ""                                 // lets that follow the pattern binding: field updates f.X = tmp
 	bind := func(e ast.Expr, ty *typ) string { // the pattern component for one left-hand side
+		if sx, ok := e.(*ast.SelectorExpr); ok && s.Tok == token.ASSIGN { // f.X = ...: a record update of the local f
+			id, ok := sx.X.(*ast.Ident)
+			if !ok {
+				die("unsupported assignment target %s", t.text(e))
+			}
+			sty, ok := t.env[id.Name]
+			if !ok || sty.kind != "struct" || t.foreign[sty.name] || t.params[id.Name] {
+				die("unsupported assignment target %s (a field of a local struct variable only: a parameter's caller would see the write)", t.text(e))
+			}
+			fty := t.fieldType(sty.name, sx.Sel.Name)
+			if !fty.eq(ty) {
+				die("assignment %s: type mismatch", t.text(s))
+			}
+			t.used[sty.name][sx.Sel.Name] = true
+			t.updated[sty.name] = true
+			t.tmp++
+			tmp := fmt.Sprintf("tmp_%d", t.tmp)
+			post += "let " + t.v(id.Name) + " := (" + t.prefix + sty.name + "_with_" + sx.Sel.Name + " " + t.v(id.Name) + " " + tmp + ") in\n  "
+			return tmp
+		}
 		id, ok := e.(*ast.Ident)
 		if !ok {
 			die("unsupported assignment target %s (only local variables and m[k])", t.text(e))
@@ -1901,11 +2075,16 @@ func (t *tr) assign(s *ast.AssignStmt) string {
 		if len(comps) > 1 {
 			p = "'" + p
 		}
-		return "let " + p + " := " + c + " in\n  "
+		out := "let " + p + " := " + c + " in\n  " + post
+		post = ""
+		return out
 	}
 	noAlias := func(e ast.Expr, ty *typ) {
 		if _, ok := e.(*ast.Ident); ok && ty.kind == "map" {
 			die("a second name for the map %s (two names for one map are not modelled)", t.text(e))
+		}
+		if _, ok := e.(*ast.Ident); ok && ty.kind == "struct" && t.updated[ty.name] {
+			die("a second name for the struct %s whose fields are assigned (it may be a pointer: not modelled)", t.text(e))
 		}
 	}
 	switch {
@@ -1929,9 +2108,19 @@ func (t *tr) assign(s *ast.AssignStmt) string {
 			}
 			return "let " + t.v(id.Name) + " := (map_set " + t.v(id.Name) + " " + kc + " " + vc + ") in\n  "
 		}
+		if sx, ok := s.Lhs[0].(*ast.SelectorExpr); ok && s.Tok == token.ASSIGN { // f.X = e
+			var want *typ
+			if xid, ok := sx.X.(*ast.Ident); ok {
+				if sty, ok := t.env[xid.Name]; ok && sty.kind == "struct" {
+					want = t.fieldType(sty.name, sx.Sel.Name)
+				}
+			}
+			c, ty := t.exprWant(s.Rhs[0], want)
+			return letp([]string{bind(sx, ty)}, c)
+		}
 		id, ok := s.Lhs[0].(*ast.Ident)
 		if !ok {
-			die("unsupported assignment target %s (only local variables and m[k])", t.text(s.Lhs[0]))
+			die("unsupported assignment target %s (only local variables, m[k] and f.X)", t.text(s.Lhs[0]))
 		}
 		var want *typ
 		if s.Tok != token.DEFINE {
@@ -2065,6 +2254,53 @@ func (t *tr) load(path string) {
 			}
 		}
 	}
+	t.constMaps = map[string]string{}
+	for _, d := range f.Decls {
+		if gd, ok := d.(*ast.GenDecl); ok && gd.Tok == token.VAR {
+			for _, sp := range gd.Specs {
+				vs := sp.(*ast.ValueSpec)
+				for i, n := range vs.Names {
+					if i >= len(vs.Values) {
+						continue
+					}
+					cl, ok := vs.Values[i].(*ast.CompositeLit)
+					if !ok {
+						continue
+					}
+					mt, ok := cl.Type.(*ast.MapType)
+					if !ok {
+						continue
+					}
+					k, _ := mt.Key.(*ast.Ident)
+					v, _ := mt.Value.(*ast.Ident)
+					if k == nil || v == nil || k.Name != "string" || v.Name != "string" {
+						continue
+					}
+					var ents []string
+					good := true
+					for _, el := range cl.Elts {
+						kv, ok := el.(*ast.KeyValueExpr)
+						if !ok {
+							good = false
+							break
+						}
+						kl, ok1 := kv.Key.(*ast.BasicLit)
+						vl, ok2 := kv.Value.(*ast.BasicLit)
+						if !ok1 || !ok2 || kl.Kind != token.STRING || vl.Kind != token.STRING {
+							good = false
+							break
+						}
+						ks, _ := strconv.Unquote(kl.Value)
+						vs2, _ := strconv.Unquote(vl.Value)
+						ents = append(ents, "("+coqString(ks)+", "+coqString(vs2)+")")
+					}
+					if good {
+						t.constMaps[n.Name] = "([" + strings.Join(ents, "; ") + "]%list : gomap string)"
+					}
+				}
+			}
+		}
+	}
 	t.structs = map[string]*ast.StructType{}
 	t.named = map[string]ast.Expr{}
 	t.funcs = map[string]*ast.FuncDecl{}
@@ -2115,6 +2351,9 @@ func (t *tr) declareOpaque(spec string) string {
 		case "[]string":
 			return tList(tString)
 		}
+		if _, ok := astCoq[s]; ok {
+			return &typ{kind: s}
+		}
 		die("unsupported type %s in the signature of %s", s, name)
 		return nil
 	}
@@ -2157,7 +2396,7 @@ func (t *tr) declareOpaque(spec string) string {
 }
 
 func fnMode() {
-	t := &tr{prefix: os.Args[4], used: map[string]map[string]bool{}, done: map[string]string{}, busy: map[string]bool{}, implicit: map[string]map[string]string{}, forced: map[string][]string{}, foreign: map[string]bool{}, dyn: map[string]bool{}, globals: map[string]bool{}, opaque: map[string]*opaqueFn{}}
+	t := &tr{prefix: os.Args[4], used: map[string]map[string]bool{}, done: map[string]string{}, busy: map[string]bool{}, implicit: map[string]map[string]string{}, forced: map[string][]string{}, updated: map[string]bool{}, foreign: map[string]bool{}, dyn: map[string]bool{}, globals: map[string]bool{}, opaque: map[string]*opaqueFn{}}
 	t.load(os.Args[2])
 	for _, key := range strings.Split(os.Args[3], ",") {
 		if strings.HasPrefix(key, "+") { // +Type.Field: keep this field in the Record even if no translated function reads it
@@ -2248,6 +2487,28 @@ func fnMode() {
 			// a value from a list of strings (the string fields in declaration order; other fields zero): used to enumerate inputs
 			fmt.Fprintf(&out, "Definition %s%s_mk (ss : list string) : %s%s := {| %s |}.\n", t.prefix, name, t.prefix, name, strings.Join(mk, "; "))
 			fmt.Fprintf(&out, "Definition %s%s_arity : nat := %d.\n", t.prefix, name, nstr)
+		}
+		if t.updated[name] { // r.F = v as a new record
+			var names, tys []string
+			for _, f := range t.structs[name].Fields.List {
+				for _, n := range f.Names {
+					if t.used[name][n.Name] {
+						names = append(names, n.Name)
+						tys = append(tys, t.coqType(t.typeOf(f.Type)))
+					}
+				}
+			}
+			for i, fn := range names {
+				var parts []string
+				for _, g := range names {
+					if g == fn {
+						parts = append(parts, fmt.Sprintf("%s%s_%s := v", t.prefix, name, g))
+					} else {
+						parts = append(parts, fmt.Sprintf("%s%s_%s := %s%s_%s r", t.prefix, name, g, t.prefix, name, g))
+					}
+				}
+				fmt.Fprintf(&out, "Definition %s%s_with_%s (r : %s%s) (v : %s) : %s%s := {| %s |}.\n", t.prefix, name, fn, t.prefix, name, tys[i], t.prefix, name, strings.Join(parts, "; "))
+			}
 		}
 	}
 	for i := 0; i < len(t.usedAny); i++ { // emit may mention further structs
